@@ -121,6 +121,13 @@ def rule_table(ck: Check, repo: Repo, rid: str = "R1") -> None:
         r.violation(q, key, msg, f"{repo.module('reuse.project').rel}:{leaf.trace[-1] if leaf.trace else fn.lineno}",
                     {"valuation": d, "events": [repr(e) for e in leaf.events]})
 
+    # the table is stated over ONE accumulator list that is extended / appended to and returned at the end; early returns of
+    # other expressions, or an accumulator that starts as a copy of one of the lists, are another layout - not decided
+    rets_ = [n for n in ast.walk(fn) if isinstance(n, ast.Return) and n.value is not None]
+    acc_inits = [st.value for st in ast.walk(fn) if isinstance(st, (ast.Assign, ast.AnnAssign)) and st.value is not None
+                 and any(isinstance(t, ast.Name) and t.id == "result" for t in (st.targets if isinstance(st, ast.Assign) else [st.target]))]
+    if len(rets_) != 1 or ast.unparse(rets_[0].value) != "result" or any(ast.unparse(v) not in ("[]", "list()") for v in acc_inits):
+        raise AnalysisError("Project.reuse_info_of: the result is not one list built by extend / append and returned at the end (shape not enumerated)")
     for d, leaf, spec in leaves:
         top = {k: v for k, v in d.items() if "::" not in k}
         name = show_valuation(top)
@@ -493,7 +500,13 @@ def rule_nesting(ck: Check, repo: Repo) -> None:
     wsrc = single_assign_value(f2, ast.unparse(walk.iter)) if isinstance(walk.iter, ast.Name) else walk.iter
     if wsrc is None or ast.unparse(wsrc) != "self._find_relevant_tomls_and_items(path)":
         r.violation(q2, "walk source", "the walk must iterate the depth-ordered relevant items", repo.loc(walk))
-    # clean-up loop as a flag machine: state (copyright_found, licence_found) x element (has_c, has_l)
+    # clean-up loop as a flag machine: state (copyright_found, licence_found) x element (has_c, has_l).  The model is written for
+    # two boolean flags set inside the loop; a clean-up that keeps a SET of wanted attributes, pops entries, breaks early … is
+    # another algorithm for the same table - not decided
+    flags = {t.id for st in ast.walk(clean) if isinstance(st, ast.Assign) and isinstance(st.value, ast.Constant) and st.value.value is True
+             for t in st.targets if isinstance(t, ast.Name)}
+    if len(flags) != 2 or any(isinstance(n, ast.Break) for n in ast.walk(clean)):
+        raise AnalysisError("NestedReuseTOML.reuse_info_of: the closest clean-up is not the two-flag loop this rule models (shape not enumerated)")
     it = ast.unparse(clean.iter)
     if it != "reversed(result[PrecedenceType.CLOSEST])":
         r.violation(q2, f"closest clean-up iterates {it}", "nearest-first order needs reversed(result[CLOSEST])", repo.loc(clean))
